@@ -50,5 +50,21 @@ VerdictOK(v, cause, sawPeer) ==
       [] OTHER -> TRUE
 
 \* C14 -------------------------------------------------------------------------------------------
+\* ---- supplementary (not one of the listed properties): the WormholeStatus reports are consistent with the events
+\*      st = <<conn, key, code>> as last reported; ev = the application's events so far
+KeyRank(k) == CASE k = "nokey" -> 0 [] k = "alleged" -> 1 [] k = "confirmed" -> 2 [] OTHER -> -1
+CodeRank(k) == CASE k = "nocode" -> 0 [] k = "allocated" -> 1 [] k = "consumed" -> 2 [] OTHER -> -1
+StatusConsistentEv(st, ev, closedIsEvent) ==
+    /\ CountOf(ev, "versions") > 0 => st[2] = "confirmed"
+    /\ CountOf(ev, "verifier") > 0 => KeyRank(st[2]) >= 1
+    /\ CountOf(ev, "key") > 0 => KeyRank(st[2]) >= 1
+    /\ (closedIsEvent /\ CountOf(ev, "closed") > 0) => st[1] = "closed"
+    /\ KeyRank(st[2]) >= 1 => CodeRank(st[3]) >= 1
+    /\ KeyRank(st[2]) >= 0 /\ CodeRank(st[3]) >= 0 /\ st[1] \in {"connecting", "connected", "closed"}
+\* a history of reports: never backwards, closed is final
+StatusMonotoneSeq(h) == \A i, j \in 1..Len(h) : i < j =>
+    /\ KeyRank(h[i][2]) <= KeyRank(h[j][2]) /\ CodeRank(h[i][3]) <= CodeRank(h[j][3])
+    /\ (h[i][1] = "closed" => h[j][1] = "closed")
+
 DocumentedVerdictEv(ev) == CountOf(ev, "closed") > 0 => KindsOf(ev, "closed")[1].v \in Verdicts
 ====
